@@ -949,6 +949,7 @@ static void pairs_section(void) {
 int main(int argc, char **argv) {
     vh_init(argc, argv);
     vh_sandbox_init();
+    vh_watchdog(60); /* a library call that makes no progress for a whole period is reported as a hang */
     int dl = vh_thorough ? 4 : 3, ds = vh_thorough ? 6 : 5, dr = vh_thorough ? 5 : 0;
     if (getenv("VERIF_BFS_DEPTH")) {
         dl = atoi(getenv("VERIF_BFS_DEPTH"));
